@@ -517,6 +517,7 @@ func (s *s1Sim) drive(op *s1op, done chan struct{}, cancel context.CancelFunc, a
 		if allowDestroy && !destroyed {
 			evs = append(evs, s1event{"destroy", 1, func() {
 				destroyed = true
+				w.srvQuiet.Store(true)
 				c.Fault("destroy_in_flight")
 				w.mu.Lock()
 				w.transportLost = true
@@ -802,6 +803,7 @@ func (s *s1Sim) run() {
 		w.initKilledEarly = true
 	}
 	dd := make(chan struct{})
+	w.srvQuiet.Store(true)
 	go func() { defer close(dd); w.env.Destroy() }()
 	for k := 0; k < 20; k++ {
 		synctest.Wait()
